@@ -74,6 +74,7 @@ class Frag:
     arg_of: Optional[str] = None      # assign mode: only assignments whose value is a call of this function count; translate its
                                       # first argument (or the keyword argument `kwarg`)
     kwarg: Optional[str] = None
+    idfuncs: Sequence[str] = ()       # calls read as their first argument (layout changes: move_dim, unsqueeze, ...)
     funcs: Sequence[str] = ()         # local helper functions of two scalars, kept uninterpreted: parameters `f_<name> : α → α → α`
     lets: Sequence[str] = ()          # lets mode: names assigned (in this order) at the top level of the function
     result: Optional[str] = None      # lets mode: variable whose assigned value contains the tuple/list of result entries
@@ -103,6 +104,8 @@ class Tr:
         self.f = frag
         self.src = src
         self.tmp = 0
+        self.nat_names: Dict[str, str] = {}
+        self.mutated: set = set()     # names updated in place: a later read would alias the updated tensor
         self.const_nodes: Dict[str, ast.AST] = {}
         for name in frag.consts:
             hits = [s.value for s in (fn.body if fn else []) if isinstance(s, ast.Assign) and len(s.targets) == 1
@@ -146,6 +149,8 @@ class Tr:
         if isinstance(n, ast.Constant):
             return self.lit(n, want)
         if isinstance(n, ast.Name):
+            if n.id in self.mutated:
+                raise Unsupported(f"'{n.id}' is read after an in-place update (aliasing is not modelled)")
             if n.id in env:
                 v = env[n.id]
                 if v.kind == "optreal":
@@ -189,6 +194,9 @@ class Tr:
 
     def binop(self, n: ast.BinOp, env, want) -> Tuple[str, str]:
         op = n.op
+        if isinstance(op, ast.Pow) and isinstance(n.left, ast.Constant) and isinstance(n.left.value, int) and n.left.value > 0 \
+                and isinstance(n.right, ast.Name) and n.right.id in self.nat_names:
+            return f"(({n.left.value} ^ {self.nat_names[n.right.id]} : Nat) : Int)", "int"      # c ** k for a natural k
         if isinstance(op, ast.Pow):
             if not (isinstance(n.right, ast.Constant) and isinstance(n.right.value, int) and n.right.value >= 0):
                 raise Unsupported("** with a non-literal exponent")
@@ -267,6 +275,10 @@ class Tr:
     def call(self, n: ast.Call, env, want) -> Tuple[str, str]:
         fn = n.func
         kws = {k.arg: k.value for k in n.keywords}
+        if ast.unparse(fn) in self.f.idfuncs and n.args:
+            return self.expr(n.args[0], env, want)
+        if isinstance(fn, ast.Attribute) and fn.attr in self.f.idfuncs:
+            return self.expr(fn.value, env, want)
         if isinstance(fn, ast.Name):
             if fn.id == "abs" and len(n.args) == 1:
                 t, k = self.expr(n.args[0], env, want)
@@ -305,8 +317,11 @@ class Tr:
                 if a[1] != b[1]:
                     a, b = (self.to_real(*a), "real"), (self.to_real(*b), "real")
                 return f"(if {self.cond(n.args[0], env)} then {a[0]} else {b[0]})", a[1]
-            return self.method(self.expr(fn.value, env, want), fn.attr.rstrip("_") if fn.attr.endswith("_") and not fn.attr.endswith("__") else fn.attr,
-                               n.args, kws, env, want)
+            inplace = fn.attr.endswith("_") and not fn.attr.endswith("__")
+            recv = self.expr(fn.value, env, want)
+            if inplace and isinstance(fn.value, ast.Name):
+                self.mutated.add(fn.value.id)
+            return self.method(recv, fn.attr.rstrip("_") if inplace else fn.attr, n.args, kws, env, want)
         raise Unsupported(f"call {ast.unparse(fn)[:40]}")
 
     def method(self, obj: Tuple[str, str], name: str, args, kws, env, want) -> Tuple[str, str]:
@@ -490,10 +505,13 @@ class Tr:
         for fname in self.f.funcs:
             ps.append(f"(f_{fname} : α → α → α)")
         for name, kind in self.f.params.items():
-            ty = {"real": "α", "int": "Int", "nat": "Nat", "optreal": "Option α"}[kind]
+            ty = {"real": "α", "int": "Int", "nat": "Nat", "optreal": "Option α", "bool": "Bool"}[kind]
             ps.append(f"({_lname(name)} : {ty})")
-            if kind == "nat":
+            if kind == "bool":
+                env[name] = Var(f"({_lname(name)} = true)", "bool")
+            elif kind == "nat":
                 env[name] = Var(f"(({_lname(name)} : Nat) : Int)", "int")
+                self.nat_names[name] = _lname(name)
             else:
                 env[name] = Var(_lname(name), kind, None)
         return " ".join(ps), env
@@ -596,6 +614,15 @@ class Tr:
             lines.append(f"let {nm} : {dict(real='α', int='Int')[kind]} := {t}")
             env = dict(env)
             env[name] = Var(nm, kind)
+        if self.f.result == "=return":                           # the value of the final `return`
+            rets = [s for s in body if isinstance(s, ast.Return) and s.value is not None]
+            if not rets:
+                raise Unsupported(f"no top-level return in {self.f.func}")
+            t, kind = self.expr(rets[-1].value, env, "real")
+            return (f"def {self.f.name} {sig} : {dict(real='α', int='Int')[kind]} :=\n  " + "\n  ".join(lines + [t]) + "\n")
+        if self.f.result and self.f.result.startswith("="):       # the final value of one variable
+            v = env[self.f.result[1:]]
+            return (f"def {self.f.name} {sig} : {dict(real='α', int='Int')[v.kind]} :=\n  " + "\n  ".join(lines) + f"\n  {v.lean}\n")
         if self.f.result == "return":
             rets = [s for s in body if isinstance(s, ast.Return) and s.value is not None]
             if not rets:
